@@ -62,7 +62,7 @@ class UnionSpecifier(VersionSpecifier):
             right_stable = pad_zeros(right_stable, max_length)
             first_different = first_different_index(left_stable, right_stable)
             if (
-                first_different > 0
+                0 < first_different < len(left_stable)
                 and right_stable[first_different] - left_stable[first_different] == 1
                 and set(
                     left_stable[first_different + 1 :]
